@@ -320,4 +320,32 @@ theorem avgOfF32_exact (C T : Nat) (hC : 1 ≤ C) (hCT : C ≤ T) (hT : T < 2 ^ 
     · exact Rat.le_floor_iff.2 hS1
   rw [hfS]
 
+/-- the integer formula of the proposed fix is the OpenType rounding of the exact mean, for all inputs -/
+theorem otRound_div_eq (C T : Nat) (hC : 1 ≤ C) :
+    otRound ((T : Rat) / (C : Rat)) = (((2 * T + C) / (2 * C) : Nat) : Int) := by
+  have hCpos : (0 : Rat) < (C : Rat) := by exact_mod_cast (show 0 < C by omega)
+  set m : Nat := (2 * T + C) / (2 * C) with hm
+  have h2C : 0 < 2 * C := by omega
+  have h1 : m * (2 * C) ≤ 2 * T + C := Nat.div_mul_le_self _ _
+  have h2 : 2 * T + C < (m + 1) * (2 * C) := by
+    have := Nat.lt_div_mul_add (a := 2 * T + C) h2C
+    rw [← hm] at this
+    calc 2 * T + C < m * (2 * C) + 2 * C := this
+      _ = (m + 1) * (2 * C) := by ring
+  have h1r : (m : Rat) * (2 * (C : Rat)) ≤ 2 * (T : Rat) + C := by exact_mod_cast h1
+  have h2r : 2 * (T : Rat) + C < ((m : Rat) + 1) * (2 * (C : Rat)) := by exact_mod_cast h2
+  have hq : (T : Rat) / (C : Rat) + 1 / 2 = (2 * (T : Rat) + C) / (2 * (C : Rat)) := by field_simp
+  unfold otRound
+  rw [hq]
+  have h2Cr : (0 : Rat) < 2 * (C : Rat) := by positivity
+  apply le_antisymm
+  · have : ((2 * (T : Rat) + C) / (2 * (C : Rat))).floor < (m : Int) + 1 := by
+      apply Rat.floor_lt_iff.2
+      push_cast
+      rw [div_lt_iff₀ h2Cr]; exact h2r
+    omega
+  · apply Rat.le_floor_iff.2
+    push_cast
+    rw [le_div_iff₀ h2Cr]; exact h1r
+
 end Fontc.Limits
